@@ -1,2 +1,112 @@
--- stub: replaced by the C15 driver
-def main : IO Unit := pure ()
+/-
+  Driver.C15 — runs the C15 CodeModels (Golib.Hash.*) on operation lines.
+
+    H <hex>            → <Hash> <Hash64> <Hash64v2> <Hash64V2> <HashAddr> <HashCode>
+    h <hex>            → <Hash> only (bulk stream of the thorough tier)
+    HN                 → <Hash64v2 nil> <Hash64V2 nil>
+    HS <hex>           → <HashStr> <GetLongHash>
+    C <hex>            → bit-by-bit CRC-32 (the Spec), unsigned
+    M <seed> <hex>     → <murmur32 seed> <murmur64 seed> <MurmurHash2 reference> <MurmurHash64A reference>
+    ML <u64>           → <MurmurHashLong> <MurmurHash(uint32(u64))>
+    MP <len> <hex>     → MurmurHashLongByte(data, len)
+    X <int64>          → <ToString32 as hex> <ToLong32 of that text>
+    XL <hex text>      → ToLong32(text)
+    B64|B32|B16 <h> <l> <src> → <Composite h l> <GetHigh src> <GetLow src> [<SetHigh src h> <SetLow src l>]
+    IS <hex>           → ToString(bytes) as hex text | panic
+    IB <hex text>      → ToBytes(text) as hex
+    II <int32>         → <ToBytesFrInt hex> <ToStringFrInt hex text>
+    IT <hex>           → ToInt(bytes) | panic
+  Text travels as the hex of its bytes.
+-/
+import Golib.Hash.Crc
+import Golib.Hash.Murmur
+import Golib.Hash.Hexa32
+import Golib.Hash.BitIp
+import Driver.Common
+
+open Drv
+
+def textOf (bs : Bytes) : List Char := bs.map Char.ofNat
+def bytesOfText (cs : List Char) : Bytes := cs.map Char.toNat
+
+def answer (line : String) : String :=
+  match line.splitOn " " with
+  | ["H", hex] =>
+    match ofHex hex with
+    | some bs =>
+      s!"{Hash.hash bs} {Hash.hash64 bs} {Hash.hash64v2 (some bs)} {Hash.hash64V2 (some bs)} {Hash.hashAddr bs} {StrHash.hashCode bs}"
+    | none => "bad-op"
+  | ["h", hex] =>
+    match ofHex hex with
+    | some bs => s!"{Hash.hash bs}"
+    | none => "bad-op"
+  | ["HN"] => s!"{Hash.hash64v2 none} {Hash.hash64V2 none}"
+  | ["HS", hex] =>
+    match ofHex hex with
+    | some bs => s!"{Hash.hashStr bs} {Hash.getLongHash bs}"
+    | none => "bad-op"
+  | ["C", hex] =>
+    match ofHex hex with
+    | some bs => s!"{Hash.crc32 bs}"
+    | none => "bad-op"
+  | ["M", seed, hex] =>
+    match parseNat seed, ofHex hex with
+    | some sd, some bs =>
+      s!"{Murmur.murmur32 bs sd} {Murmur.murmur64 bs sd} {Murmur.Ref.murmurHash2 bs sd} {Murmur.Ref.murmurHash64A bs sd}"
+    | _, _ => "bad-op"
+  | ["ML", d] =>
+    match parseNat d with
+    | some d => s!"{Murmur.murmurLong d} {Murmur.murmurU32 d}"
+    | none => "bad-op"
+  | ["MP", n, hex] =>
+    match parseNat n, ofHex hex with
+    | some n, some bs => s!"{Murmur.murmurLongByte bs n}"
+    | _, _ => "bad-op"
+  | ["X", v] =>
+    match parseInt v with
+    | some v =>
+      let t := Hexa32.toString32 v
+      s!"{hexOf (bytesOfText t)} {Hexa32.toLong32 t}"
+    | none => "bad-op"
+  | ["XL", hex] =>
+    match ofHex hex with
+    | some bs => s!"{Hexa32.toLong32 (textOf bs)}"
+    | none => "bad-op"
+  | ["B64", h, l, src] =>
+    match parseInt h, parseInt l, parseInt src with
+    | some h, some l, some s =>
+      s!"{BitUtil.composite64 h l} {BitUtil.getHigh64 s} {BitUtil.getLow64 s} {BitUtil.setHigh64 s h} {BitUtil.setLow64 s l}"
+    | _, _, _ => "bad-op"
+  | ["B32", h, l, src] =>
+    match parseInt h, parseInt l, parseInt src with
+    | some h, some l, some s => s!"{BitUtil.composite32 h l} {BitUtil.getHigh32 s} {BitUtil.getLow32 s}"
+    | _, _, _ => "bad-op"
+  | ["B16", h, l, src] =>
+    match parseInt h, parseInt l, parseInt src with
+    | some h, some l, some s => s!"{BitUtil.composite16 h l} {BitUtil.getHigh16 s} {BitUtil.getLow16 s}"
+    | _, _, _ => "bad-op"
+  | ["IS", hex] =>
+    match ofHex hex with
+    | some bs => match IpUtil.toString bs with
+      | some t => hexOf (bytesOfText t)
+      | none => "panic"
+    | none => "bad-op"
+  | ["IB", hex] =>
+    match ofHex hex with
+    | some bs => hexOf (IpUtil.toBytes (textOf bs))
+    | none => "bad-op"
+  | ["II", v] =>
+    match parseInt v with
+    | some v =>
+      let t := match IpUtil.toStringFrInt v with | some t => hexOf (bytesOfText t) | none => "panic"
+      s!"{hexOf (IpUtil.toBytesFrInt v)} {t}"
+    | none => "bad-op"
+  | ["IT", hex] =>
+    match ofHex hex with
+    | some bs => match IpUtil.toInt bs with
+      | some v => s!"{v}"
+      | none => "panic"
+    | none => "bad-op"
+  | _ => "bad-op"
+
+def main : IO Unit := statelessLoop answer
